@@ -82,9 +82,13 @@ Connect == /\ IsEvent("connect")
               socks' = [socks EXCEPT ![k].raddr = Unmap(Ev.addr), ![k].rport = Ev.port, ![k].conn = TRUE,
                                      ![k].bnic = IF Ev.nic # 0 THEN Ev.nic ELSE @]
            /\ UNCHANGED <<cfgv, sent, rxs, lastId>>
+\* (cur: this explicit destination belongs to the write that is in progress - from its sendto event to its wend event)
 SendTo == /\ IsEvent("sendto")
-          /\ sent' = sent \cup {[host |-> Ev.host, s |-> Ev.s, addr |-> Unmap(Ev.addr), port |-> Ev.port]}
+          /\ sent' = sent \cup {[host |-> Ev.host, s |-> Ev.s, addr |-> Unmap(Ev.addr), port |-> Ev.port, cur |-> TRUE]}
           /\ UNCHANGED <<cfgv, socks, rxs, lastId>>
+WEnd == /\ IsEvent("wend")
+        /\ sent' = {IF x.host = Ev.host /\ x.s = Ev.s THEN [x EXCEPT !.cur = FALSE] ELSE x : x \in sent}
+        /\ UNCHANGED <<cfgv, socks, rxs, lastId>>
 \* what the API reports fills in what is still unknown (ephemeral port, address chosen by connect); it never
 \* replaces the binding the socket was given: C06 judges frames against the socket, not the API against itself
 Local == /\ IsEvent("local")
@@ -174,8 +178,15 @@ SolicitedNode(a) == <<255, 2, 0, 0, 0, 0, 0, 0, 0, 0, 0, 1, 255, a[14], a[15], a
 \* ------------------------------------------------------------------ the state-dependent clauses
 SockProto(t) == CASE t.kind = "tcp" -> 6 [] t.kind = "udp" -> 17 [] t.kind = "echoreq" -> (IF t.v = 4 THEN 1 ELSE 58) [] OTHER -> 0
 \* remote side of socket k agrees with the packet (ping sockets have no remote port)
-PeerOK(k, t) == IF socks[k].conn THEN socks[k].raddr = t.dst /\ (t.kind = "echoreq" \/ socks[k].rport = t.p2)
-                ELSE \E x \in sent : x.host = k[1] /\ x.s = k[2] /\ x.addr = t.dst /\ (t.kind = "echoreq" \/ x.port = t.p2)
+\* (a connected socket may still name a destination per datagram)
+PeerOK(k, t) == \/ socks[k].conn /\ socks[k].raddr = t.dst /\ (t.kind = "echoreq" \/ socks[k].rport = t.p2)
+                \/ \E x \in sent : x.host = k[1] /\ x.s = k[2] /\ x.addr = t.dst /\ (t.kind = "echoreq" \/ x.port = t.p2)
+\* a datagram that a socket emits while its write with an explicit destination is in progress goes to THAT destination
+\* (judged on in-memory links without address resolution only: there the tap logs the frame inside the Write call; fd-based
+\*  links are captured by a reader goroutine and resolution defers frames, so "in progress" says nothing about them)
+NowRight(h, t) == \A x \in sent : (x.cur /\ x.host = h /\ t.kind = "udp" /\ <<h, x.s>> \in DOMAIN socks /\ socks[<<h, x.s>>].proto = 17
+                                      /\ socks[<<h, x.s>>].lport \in {0, t.p1} /\ socks[<<h, x.s>>].laddr \in {NoAddr, t.src})
+                                     => (t.dst = x.addr /\ t.p2 = x.port)
 Owners(h, t) == {k \in DOMAIN socks : /\ k[1] = h /\ socks[k].proto = SockProto(t)
                                       /\ socks[k].lport = t.p1 /\ socks[k].laddr \in {NoAddr, t.src} /\ PeerOK(k, t)}
 \* sockets that have no local port yet and are sending to this destination: the frame shows their port
@@ -227,7 +238,7 @@ NdFailsSt(h, nc, t) ==
 StateFails(h, nc, t, dmac) ==
   IF t.kind = "arp" THEN ArpFailsSt(h, nc, t, dmac)
   ELSE IF t.kind = "other" /\ t.v = 0 THEN {}                       \* undecodable: WellFormed has already failed
-  ELSE Chk(SrcByRoute(h, nc.nic, t), "SrcByRoute") \cup Chk(PortsRight(h, nc.nic, t), "PortsRight")
+  ELSE Chk(SrcByRoute(h, nc.nic, t), "SrcByRoute") \cup Chk(PortsRight(h, nc.nic, t) /\ (nc.kind = "eth" \/ nc.resolve \/ NowRight(h, t)), "PortsRight")
        \cup Chk(~nc.resolve \/ DstMacIP(h, nc.nic, t, dmac), "DstMac")
        \cup (IF t.kind \in {"ns", "na"} THEN NdFailsSt(h, nc, t) ELSE {})
 
@@ -279,6 +290,6 @@ Emit ==
 
 Note == IsEvent("note") /\ UNCHANGED <<cfgv, socks, sent, rxs, lastId>>
 
-TNext == Reset \/ Nic \/ Addr \/ Routes \/ Neigh \/ Sock \/ Bind \/ Connect \/ SendTo \/ Local \/ Rx \/ Emit \/ Note
+TNext == Reset \/ Nic \/ Addr \/ Routes \/ Neigh \/ Sock \/ Bind \/ Connect \/ SendTo \/ WEnd \/ Local \/ Rx \/ Emit \/ Note
 TSpec == TInit /\ [][TNext]_tvars
 =============================================================================
